@@ -45,6 +45,7 @@ def run(ck, facts):
     ck.units.append("diplomat_runtime.lib (MIR)")
     ck.rule("R1", "ownership-escape inventory of the runtime crate equals the triaged table spec/ownership.json (a new or vanished unsafe ownership operation must be triaged)")
     ck.rule("R2", "typestate: after a payload/pointer is taken out of a value whose drop glue releases it (ManuallyDrop::take, ptr::read, Box::from_raw, Vec::from_raw_parts), that value is not dropped on the same path")
+    ck.rule("R2c", "a Vec/Box rebuilt from a buffer that a surviving owner (behind a pointer argument) still points at is forgotten on every path, never dropped")
     ck.rule("R2b", "Drop for DiplomatResult releases exactly one payload per path: `ok` on the is_ok edge, `err` otherwise, and the taken value is dropped")
     ck.rule("R3", "constructor/destructor pairing: buffer writer create/destroy, owned slice into_raw/from_raw, callback destructor called at most once under the Some edge")
     ck.rule("R4", "generated `*_destroy(Box<T>)` is the only by-value consumer of an opaque in the repo's bridges and has an empty body")
@@ -89,6 +90,7 @@ def run(ck, facts):
 
     # ---- R2 typestate
     n2 = 0
+    n2c = 0
     units = [(rt, None), (facts.ft, "diplomat::bridge"), (facts.example, "diplomat::bridge")]
     for unit, only_exp in units:
         for f in unit.fn_list:
@@ -130,8 +132,36 @@ def run(ck, facts):
                             bad.append("%s: %s dropped in bb%d after its payload was taken" % (m.local_name(l), lty, db))
                 ck.expect(not bad, "R2", key, "owner not dropped after the take" if owners else "no droppy owner involved",
                           "double release: " + "; ".join(bad), C.loc(f, t.get("ln")))
+                # R2c: a value re-owned from storage that its (borrowed) owner keeps pointing at must be forgotten on every path
+                if re.search(r"(vec::Vec::from_raw_parts|boxed::Box::from_raw|string::String::from_raw_parts)$", cal) and t.get("dest"):
+                    roots = [(kind, l) for kind, l in sym_leaves(a0) if kind in ("arg", "local", "phi")]
+                    borrowed_owner = bool(roots) and all(mir["locals"][l]["ty"].startswith(("&", "*")) for _, l in roots) and \
+                        any(x[0] == "proj" and isinstance(x[2], str) and x[2].startswith(".") for x in sym_walk(a0) if isinstance(x, tuple) and len(x) > 2)
+                    if borrowed_owner:
+                        n2c += 1
+                        alias = {t["dest"]["l"]}
+                        changed = True
+                        while changed:
+                            changed = False
+                            for b2, st in m.stores():
+                                rv = st.get("rv") or {}
+                                op = rv.get("op") if rv.get("k") == "use" else None
+                                src = None
+                                if isinstance(op, dict):
+                                    src = (op.get("move") or op.get("copy") or {}).get("l")
+                                if src in alias and not st["lhs"].get("p") and st["lhs"]["l"] not in alias:
+                                    alias.add(st["lhs"]["l"])
+                                    changed = True
+                        reach = m.cfg.reachable_from(bb)
+                        dropped = sorted({db for l in alias for db in drops.get(l, []) if db in reach})
+                        ck.expect(not dropped, "R2c", "%s/%s(%s)/forgotten-on-every-path" % (f["path"], short(cal), sym_show(a0)),
+                                  "re-owned value is never dropped (handed to mem::forget / moved out)",
+                                  "the %s rebuilt from %s is dropped in bb%s on some path while the owner behind the pointer still refers to that buffer: "
+                                  "freed now and again when the owner is destroyed" % (short(cal), sym_show(a0), dropped), C.loc(f, t.get("ln")))
     if n2 < 8:
         ck.bad("R2", "floor", "only %d take/from_raw sites examined" % n2)
+    if n2c < 1:
+        ck.bad("R2c", "floor", "no re-owning site with a surviving owner found (1 counted: diplomat_buffer_write_create::grow)")
 
     # ---- R2b Drop for DiplomatResult
     f = rt.fn("<diplomat_runtime::result::DiplomatResult<T, E> as core::ops::drop::Drop>::drop")
@@ -321,3 +351,6 @@ def run(ck, facts):
         if n.get("k") == "macro" and "std::unique_ptr<" in n.get("src", ""):
             okup = "FromFFI" in n["src"]
     ck.expect(bool(okup), "R5", "cpp/gen_c_to_cpp_for_type/unique_ptr", "std::unique_ptr<T>(T::FromFFI(..))", "owned opaque returns are no longer wrapped in std::unique_ptr<T>(T::FromFFI(..))", C.loc(f))
+    # the std::string-backed writer: Rust must never be left with a pointer into storage the string has released
+    import c02
+    c02.cpp_writer_rules(ck, "R5")
